@@ -24,6 +24,33 @@ func (urlTree *URLTree[T]) Lookup(url string) LookupResult[T] {
 	return res
 }
 
+// LookupDeclaredURL returns the value stored for exactly the declared pattern
+// url: constant parts, `{param}` parts and a trailing wildcard are followed
+// into nodes of the same kind only. Unlike Lookup it never falls back to a
+// wildcard or parametric node that merely matches url, so callers that extend
+// the value of an already declared pattern do not touch a less specific one.
+func (urlTree *URLTree[T]) LookupDeclaredURL(url string) (*T, bool) {
+	currentNode := urlTree.Root
+	for _, urlPart := range splitURL(url) {
+		var next *Node[T]
+		if urlPart.Value == wildcard {
+			next = currentNode.WildcardChild
+		} else if _, isPathParam := TryExtractPathParameter(urlPart.Value); isPathParam {
+			next = currentNode.ParametricChild.Child
+		} else {
+			next = currentNode.ConstantChildren[urlPart.Value]
+		}
+		if next == nil || next.IsPartOfHost != urlPart.IsPartOfHost {
+			return nil, false
+		}
+		currentNode = next
+	}
+	if !currentNode.hasValue() {
+		return nil, false
+	}
+	return currentNode.Value, true
+}
+
 func lookupNode[T any](urlTree *URLTree[T], url string) lookupNodeResult[T] {
 	splitURL := splitURL(url)
 	currentNode := urlTree.Root
